@@ -153,6 +153,22 @@ fn twin_strategy(max_len: usize) -> BoxedStrategy<Twin> {
         .boxed()
 }
 
+/// limb-structured integers (zero / all-ones 64-bit limbs) that end in decimal zeros, against their
+/// re-representations: the digits are decimal-random but the binary limbs are not
+fn structured_strategy() -> BoxedStrategy<Twin> {
+    (gen::digspec_shapes(1200, &[15, 15, 13, 12, 9]), any::<bool>(), -40i64..=400, 0u64..=40, 0..3u8)
+        .prop_map(|(spec, neg, scale, zb, keep)| {
+            let n = gen::digits_of(&spec);
+            let t = n.trim_end_matches('0');
+            let canon = if t.is_empty() { "1" } else { t };
+            let tz = (n.len() - canon.len()) as u64;
+            // a = the structured integer exactly as generated (canon followed by its own tz zeros)
+            let za = if keep == 0 { tz / 2 } else { tz };
+            mk(canon, neg, scale, za, zb, false)
+        })
+        .boxed()
+}
+
 /// zero with scales across the whole allowed range
 fn zero_strategy() -> BoxedStrategy<Twin> {
     (-100_000i64..=100_000, -100_000i64..=100_000, any::<bool>())
@@ -187,9 +203,25 @@ pub fn run(ctx: &Ctx) {
         grid,
         check_twin,
     );
+    let max_z = t.pick(2500u64, 10_000);
+    ctx.enumerated(
+        "zero-run-sweep",
+        "twin",
+        max_z * 12,
+        true,
+        &format!("EXHAUSTIVE: every number of extra trailing zeros 1..={} on one side x 6 canonical values x both signs", max_z),
+        move |i| {
+            let z = 1 + i % max_z;
+            let k = i / max_z;
+            let canon = ["1", "2", "7", "12345", "99999999999999999999", "340282366920938463463374607431768211457"][(k % 6) as usize];
+            Some(mk(canon, k / 6 == 1, (i % 11) as i64 - 5, z, (i % 3), false))
+        },
+        check_twin,
+    );
     let max_len = t.pick(300usize, 1500);
     let n = t.pick(200_000u64, 2_000_000);
     ctx.generated("twins", "twin", n, "canonical value x scale in +-60 / +-2000 / +-99000 x 0..60 (..900) extra zeros each", move || twin_strategy(max_len), check_twin);
+    ctx.generated("limb-structured", "twin", n / 2, "integers built from zero / all-ones / random 64-bit limbs and forced to end in 0..4 decimal zeros, all-ones limbs, near powers of two, boundary words; against re-representations", structured_strategy, check_twin);
     ctx.generated("zeros", "twin", n / 4, "zero with two scales anywhere in [-10^5, 10^5], both construction signs", zero_strategy, check_twin);
     ctx.generated("negscale-vs-written", "twin", n / 16, "n e+k (negative scale) versus n followed by k (+extra) written zeros, k up to 90000", move || negscale_strategy(max_len.min(300)), check_twin);
 }
